@@ -9,7 +9,7 @@ PROP = "C01"
 PROOF_MODULES = ["Abverif.Proofs.Lemmas.WsFrame", "Abverif.Proofs.Lemmas.WsExt", "Abverif.Proofs.C01", "Abverif.Proofs.Lemmas.WsSeg", "Abverif.Proofs.Lemmas.WsSeg2", "Abverif.Proofs.Lemmas.WsData", "Abverif.Proofs.WsSegmentation", "Abverif.Proofs.Lemmas.WsJudge", "Abverif.Proofs.Lemmas.WsJudge2", "Abverif.Proofs.WsRefinement", "Abverif.Proofs.Lemmas.WsEncode", "Abverif.Proofs.WsRoundtrip", "Abverif.Proofs.C05", "Abverif.Proofs.WsReach"]
 MANIFEST_ENTRY = {
     "technique": 'Lean 4 theorems on the send path (length codec, fragmentation, write queue order, mask policy) + model<->code correspondence + RFC judge of the wire',
-    "text": 'Proved for all inputs on the model: big-endian/length codec round trip at every boundary (0/125/126/65535/65536/2^63), the sendMessage fragment loop concatenates to the payload with FIN only on the last fragment, write chopping and the send queue never reorder octets (queue_order over any mix of direct/sync/chopped writes), default mask policy. The model (Ws.lean, mirrors sendFrame/sendMessage/streaming API/PreparedMessage/sendData/_send and the receive path) is tied to the code by exact per-operation comparison on real Twisted and asyncio protocol objects; the octets real senders write are judged by the frame-by-frame RFC 6455 Spec in the peer role (well-formed, messages = sent) and delivered under 4 segmentations to real receivers in all 4 framework pairings. Segmentation: segmentation_independent (Proofs/WsSegmentation.lean) proves for the receive model with failByDrop=True that any two cuts of one octet stream into non-empty reads give the same state (or both runs closed with the same history), so what the differential run establishes for the sampled segmentations holds for every one; recv_refines_judge (Proofs/WsRefinement.lean) proves that what the receiving engine delivers for ANY octet stream under ANY segmentation is exactly what the frame-by-frame RFC judge derives from the stream; send_recv_roundtrip (Proofs/WsRoundtrip.lean) closes the loop on the model: whatever list of messages a fresh endpoint sends with sendMessage (text/binary, any length below 2^63, unfragmented or any fragment size, direct or queued writes, masked or not), when its octets reach a fresh receiving engine (failByDrop, no compression) in ANY segmentation, that engine delivers exactly those messages in order and stays OPEN - under the stated conditions SenderOk/MsgOk (masking agreed, limits of both sides respected, text valid UTF-8 when the receiver validates, fragment size not 0); ingredients: judgeStep_encodeFrame (the judge reads back what encodeFrame writes: header bits, all three length encodings via lenCodec_roundtrip, key, masking via C15 involutive), frame_run / sendFrags_run (fragment sequences incl. incremental UTF-8), sendMessage_judged, recv_refines_judge. Also proved: sendPrepared_judged (prepared messages) and stream_judged (beginMessage, any non-empty sequence of sendMessageFrame, endMessage: judged as exactly one message, the concatenation of the frame payloads; with zero frames endMessage writes a lone continuation frame - a protocol violation, which is why the theorem needs a non-empty sequence). Compression end-to-end is tied by the differential runs only (codec laws in C12).',
+    "text": 'Proved for all inputs on the model: big-endian/length codec round trip at every boundary (0/125/126/65535/65536/2^63), the sendMessage fragment loop concatenates to the payload with FIN only on the last fragment, write chopping and the send queue never reorder octets (queue_order over any mix of direct/sync/chopped writes), default mask policy. The model (Ws.lean, mirrors sendFrame/sendMessage/streaming API/PreparedMessage/sendData/_send and the receive path) is tied to the code by exact per-operation comparison on real Twisted and asyncio protocol objects; the octets real senders write are judged by the frame-by-frame RFC 6455 Spec in the peer role (well-formed, messages = sent) and delivered under 4 segmentations to real receivers in all 4 framework pairings. Segmentation: segmentation_independent (Proofs/WsSegmentation.lean) proves for the receive model with failByDrop=True that any two cuts of one octet stream into non-empty reads give the same state (or both runs closed with the same history), so what the differential run establishes for the sampled segmentations holds for every one; recv_refines_judge (Proofs/WsRefinement.lean) proves that what the receiving engine delivers for ANY octet stream under ANY segmentation is exactly what the frame-by-frame RFC judge derives from the stream; send_recv_roundtrip (Proofs/WsRoundtrip.lean) closes the loop on the model: whatever list of messages a fresh endpoint sends with sendMessage (text/binary, any length below 2^63, unfragmented or any fragment size, direct or queued writes, masked or not), when its octets reach a fresh receiving engine (failByDrop, no compression) in ANY segmentation, that engine delivers exactly those messages in order and stays OPEN - under the stated conditions SenderOk/MsgOk (masking agreed, limits of both sides respected, text valid UTF-8 when the receiver validates, fragment size not 0); ingredients: judgeStep_encodeFrame (the judge reads back what encodeFrame writes: header bits, all three length encodings via lenCodec_roundtrip, key, masking via C15 involutive), frame_run / sendFrags_run (fragment sequences incl. incremental UTF-8), sendMessage_judged, recv_refines_judge. Also proved: sendPrepared_judged (prepared messages) and stream_judged (beginMessage, any non-empty sequence of sendMessageFrame, endMessage: judged as exactly one message, the concatenation of the frame payloads; with zero frames endMessage writes a lone continuation frame - a protocol violation, which is why the theorem needs a non-empty sequence). Compression end-to-end is tied by the differential runs only (codec laws in C12). All these theorems are about one send at a time: while a streaming frame is open every other frame the endpoint produces (application ping/pong, the automatic pong, a whole message) lands inside that frame and corrupts the stream - known finding sender-wrote-ill-formed-frames:frame-inside-open-streaming-frame, reproduced on both frameworks in every run; stream_judged and send_recv_roundtrip therefore start from the ground send state and fold one API.',
     "note": 'Trusted: Lean kernel; hand-written model tied only by differential execution (generator-bounded); mask keys from a deterministic stream; TCP = order-preserving pipe; compression end-to-end is implementation-to-implementation (codec in C12).',
 }
 TRUSTED = [
@@ -112,6 +112,20 @@ def gen_sender(ctx, i):
     return {"cfg": cfg, "start": "open", "ops": ops}
 
 
+def interleaved_senders(ctx):
+    """"all send-API mixes": another frame produced while a streaming frame is open - a ping or pong the application sends,
+    the automatic pong that answers a ping of the peer, a whole message - lands in the middle of that frame's payload"""
+    rng = ctx.rng
+    out = []
+    for role in ("client", "server"):
+        mask = rng.randbytes(4) if role == "server" else None     # frames TO a server are masked
+        for mid in ([f"ping,{wsgen.hx(b'hi')}"], ["pong,-"], ["feed," + wsgen.hx(wsgen.frame(9, b"are you there", mask=mask))],
+                    [f"msg,{wsgen.hx(b'other')},1,n,0"]):
+            ops = ["bm,1", "bf,4", "fd,0102,0"] + mid + ["fd,0304,0", "em", f"adv,{SEC // 2}"]
+            out.append({"cfg": {"srv": int(role == "server")}, "start": "open", "ops": ops, "tag": "ctl-inside-frame"})
+    return out
+
+
 def run(ctx):
     with wsrun.Nvx() as nvx:
         return run_(ctx, nvx)
@@ -150,6 +164,7 @@ def run_(ctx, nvx):
         senders = [rp["sender"]]
     else:
         senders = [gen_sender(ctx, i) for i in range(n)]
+        senders += interleaved_senders(ctx)
     fws = ["twisted", "asyncio"]
     sent = [sent_messages(s["ops"]) for s in senders]
     for s, m in zip(senders, sent):
@@ -186,11 +201,15 @@ def run_(ctx, nvx):
             evs, verdict, rest = wsoracle.parse_judge(ans)
             got = [(wsoracle.unhex(e.split(":")[1]), e.split(":")[2] == "1") for e in evs if e.startswith("m:")]
             if verdict != "ok" or rest != 0:
-                add("sender-wrote-ill-formed-frames", f"{fw}: the octets written are not a well-formed RFC 6455 frame sequence ({verdict}, {rest} octets left)",
+                add("sender-wrote-ill-formed-frames" + (":frame-inside-open-streaming-frame" if senders[i].get("tag") == "ctl-inside-frame" else ""),
+                    f"{fw}: the octets written are not a well-formed RFC 6455 frame sequence ({verdict}, {rest} octets left)",
                     {"sender": senders[i], "fw": fw, "wire": wires[(fw, i)].hex()[:4000], "judge": ans[:500]})
             elif got != sent[i]:
                 add("wire-carries-other-messages-than-sent", f"{fw}: frames on the wire reassemble to {len(got)} messages, {len(sent[i])} were sent or content differs",
                     {"sender": senders[i], "fw": fw, "wire": wires[(fw, i)].hex()[:4000], "judge": ans[:500]})
+    # the interleaving scenarios are judged on the sender's wire only (a receiver fed an ill-formed stream says nothing new)
+    for (fw_, i_) in [k for k in wires if senders[k[1]].get("tag") == "ctl-inside-frame"]:
+        del wires[(fw_, i_)]
     # (3) receivers: every (sender fw, receiver fw) pairing, 4 segmentations each
     rng = ctx.rng
     for sfw in fws:
